@@ -5,7 +5,7 @@
 From Coq Require Import List ZArith Bool.
 Import ListNotations.
 From Zn.model Require Import SemDefs Sem.
-From Zn.proofs Require Import SemBase SemHeap SemHeapProps.
+From Zn.proofs Require Import SemBase SemHeap SemHeapProps SemCopy.
 Open Scope Z_scope.
 
 (* The copy of any value of a closed heap (any nesting, any size, any fuel that suffices): the heap only grows, the
@@ -51,6 +51,22 @@ Proof. exact index_set_local. Qed.
 Print Assumptions C07_index_set_writes_root_only.
 
 (* non-vacuity: a nested list is copied, the copy is mutated in its inner list, the original is unchanged *)
+(* Program level: EVERY assignment form (变量 = e, 甲#i = e, 甲之p = e, 其p = e) that succeeds has evaluated its right-hand side,
+   duplicated the result and stores / yields that duplicate; and a declaration 令 x1、x2、… = e binds EVERY name, the first
+   one included, to a duplicate of its own.  With the theorems above: no later write through either name reaches the other. *)
+Theorem C07_assignment_stores_copy : forall n st e e1 v' s',
+  is_assignment e = Some e1 -> eval_expr (S n) st e = Ok v' s' ->
+  exists v s1 s2, eval_expr n st e1 = Ok v s1 /\ dup n s1 v = DOk v' s2.
+Proof. exact assignment_stores_copy. Qed.
+Print Assumptions C07_assignment_stores_copy.
+
+Theorem C07_declaration_binds_copies : forall fuel c x names obj st s,
+  decl_names fuel c (x :: names) obj st = Ok tt s ->
+  exists obj' sa sb, dup fuel st obj = DOk obj' sa /\ vm_declare sa x obj' c = Ok tt sb /\
+                     decl_names fuel c names obj' sb = Ok tt s.
+Proof. exact declaration_binds_copies. Qed.
+Print Assumptions C07_declaration_binds_copies.
+
 Example C07_witness :
   let prog := {| p_inputs := []; p_catch := [];
                  p_body := [(0, SDecl [(false, [100], EArr [EArr [ENum 0]; ENum 0])]);
